@@ -369,6 +369,9 @@ func (c Case) coq() string {
 		}
 		return lib.App("CChan", lib.List(ops), lib.List(obs), final)
 	case "faults":
+		if c.Result.PopFinal > 0 {
+			return lib.App("CScenPop", lib.List(c.Result.coqEvents()), lib.N(uint64(c.Result.Class)), lib.N(8000), lib.N(uint64(c.Result.PopFinal)))
+		}
 		return lib.App("CScen", lib.List(c.Result.coqEvents()), lib.N(uint64(c.Result.Class)))
 	}
 	return lib.App("CApi", lib.Bool(false), lib.List(c.Scen.coqApi()), lib.List(c.Result.coqApiObs()), lib.N(uint64(c.Result.Class)))
@@ -423,6 +426,10 @@ func runScenario(sc *Scenario, dir string, id int) *ScenResult {
 				}
 				if so.Done {
 					res.Finished = true
+					continue
+				}
+				if so.K == "pop-final" {
+					res.PopFinal = so.Count
 					continue
 				}
 				res.Steps = append(res.Steps, so)
